@@ -271,34 +271,45 @@ func (c *Chain) EngineStream(n int) {
 			vs = vs[:1]
 		}
 		for j := 0; j < ncalls; j++ {
-			vs = append(vs, variant{"invalid", j}, variant{"error", j}, variant{"errortrue", j})
+			vs = append(vs, variant{"invalid", j}, variant{"error", j}, variant{"errortrue", j}, variant{"ctxerror", j}, variant{"ctxcanceled", j})
 		}
 		for _, v := range vs {
-			res := RunTransition(c.Spec, pre, nil, sb, hs.Blk.Fork, true, v.mode, v.at, -1)
-			c.notePartial(&res)
-			tag := "kind=engine"
-			if hs.ZeroHashMerge {
-				tag += " payload=merge_block_zero_hash"
+			for _, validate := range []bool{true, false} {
+				if !validate && v.mode != "ctxerror" && v.mode != "ctxcanceled" {
+					// without result validation only for the answers that carry a context error: a transition that swallows
+					// them skips the header update, which the state-root check would otherwise still catch
+					continue
+				}
+				vflag := 0
+				if validate {
+					vflag = 1
+				}
+				res := RunTransition(c.Spec, pre, nil, sb, hs.Blk.Fork, validate, v.mode, v.at, -1)
+				c.notePartial(&res)
+				tag := "kind=engine"
+				if hs.ZeroHashMerge {
+					tag += " payload=merge_block_zero_hash"
+				}
+				if v.mode == "none" {
+					tag += " variant=engine_missing"
+				}
+				if v.at >= 0 {
+					tag += fmt.Sprintf(" engine_at=%d", v.at)
+				}
+				post := res.Verdict()
+				if res.Post != nil {
+					post = c.Rec.State(res.Post)
+					c.problem("engine verdict %s (at %d) did not reject the block %s", v.mode, v.at, hs.BlkID)
+					c.Stats.Inc("engine_fault_accepted")
+				}
+				if res.Panicked {
+					c.problem("PANIC with engine verdict %s: %v", v.mode, res.PanicVal)
+				}
+				line := c.Rec.Line("trans %s %s %d %s %s %s rule=%s", hs.PreID, hs.BlkID, vflag, v.mode, post, tag, RuleClass(res.Err))
+				c.recordEngine(line, res.Engine)
+				c.Stats.Inc("engine_fault_records")
+				c.Stats.Inc("engine_fault." + hs.Blk.Fork.String() + "." + v.mode)
 			}
-			if v.mode == "none" {
-				tag += " variant=engine_missing"
-			}
-			if v.at >= 0 {
-				tag += fmt.Sprintf(" engine_at=%d", v.at)
-			}
-			post := res.Verdict()
-			if res.Post != nil {
-				post = c.Rec.State(res.Post)
-				c.problem("engine verdict %s (at %d) did not reject the block %s", v.mode, v.at, hs.BlkID)
-				c.Stats.Inc("engine_fault_accepted")
-			}
-			if res.Panicked {
-				c.problem("PANIC with engine verdict %s: %v", v.mode, res.PanicVal)
-			}
-			line := c.Rec.Line("trans %s %s 1 %s %s %s rule=%s", hs.PreID, hs.BlkID, v.mode, post, tag, RuleClass(res.Err))
-			c.recordEngine(line, res.Engine)
-			c.Stats.Inc("engine_fault_records")
-			c.Stats.Inc("engine_fault." + hs.Blk.Fork.String() + "." + v.mode)
 		}
 		c.Stats.Inc("engine_sweeps")
 	}
